@@ -42,7 +42,9 @@ def write_if_changed(path, text):
         open(path, "w").write(text)
 
 
-def write(gen_dir, docs):
+def write(gen_dir, docs, wire_tt=None):
+    """wire_tt: {(doc, type) -> wire type name of a value of the type (from the IDL)}; default: struct"""
+    wire_tt = wire_tt or {}
     mods, arms, listing = [], [], []
     for d in docs:
         path = os.path.join(gen_dir, d + ".rs")
@@ -51,7 +53,8 @@ def write(gen_dir, docs):
             full = f"gen_{d}::{mp}::{t}" if mp else f"gen_{d}::{t}"
             dflt = f"Some(<{full} as ::std::default::Default>::default)" if has_default else "None"
             key = t.replace("r#", "")
-            arms.append(f'        ("{d}", "{key}") => {{ a.run::<{full}>({dflt}); true }}')
+            ws = wire_tt.get((d, key), "struct")
+            arms.append(f'        ("{d}", "{key}") => {{ a.run::<{full}>({dflt}, "{ws}"); true }}')
             listing.append(f"{d} {key} {int(has_default)}")
     write_if_changed(os.path.join(gen_dir, "mods.rs"), "\n".join(mods) + "\n")
     write_if_changed(os.path.join(gen_dir, "dispatch.rs"),
